@@ -194,6 +194,13 @@ def handle : Handler
     match runOps (Array.replicate nreg ({} : M)) ops [] with
     | some outs => return "ok r=" ++ pL outs
     | none => return "bad-op"
+  | .sym "sliceidx" :: args => Id.run do   -- `range(*slice(s, e, t).indices(n))`
+    let some n := (kw? args "n").bind Val.asNat? | return "bad-op"
+    let some s := (kw? args "s").bind parseOptInt | return "bad-op"
+    let some e := (kw? args "e").bind parseOptInt | return "bad-op"
+    let some t := (kw? args "t").bind Val.asInt? | return "bad-op"
+    if t = 0 then return "err value"
+    return "ok i=" ++ pNs (sliceIdx n s e t)
   | .sym "split" :: args => Id.run do
     let some s := (kw? args "s").bind codes | return "bad-op"
     return "ok p=" ++ pL ((split3 s).map pCodes)
